@@ -239,8 +239,10 @@ fn evaluate_against_data_input<'r>(
                         verif_write_json(write_output, &root_record)?;
         }
 
-        if status == Status::FAIL {
-            overall = Status::FAIL
+        
+        
+        if status != Status::PASS {
+            overall = status
         }
     }
     Ok(overall)
